@@ -30,6 +30,10 @@ type Program struct {
 	TxVersion uint32 `json:"tx_version"`
 	InSeq     uint32 `json:"in_seq"`
 	Kind      string `json:"kind"`
+	// go-only contexts: ExtraIn inputs before and ExtraOut outputs around the tested input/output (the
+	// model's engine_execute only sees lock time, version and the tested input's sequence)
+	ExtraIn  int `json:"extra_in,omitempty"`
+	ExtraOut int `json:"extra_out,omitempty"`
 }
 
 func (p *Program) Fix() *Program {
@@ -242,16 +246,24 @@ func Build(p *Program, dbg interpreter.Debugger) *Built {
 	if p.HasTx {
 		tx := bt.NewTx()
 		tx.Version, tx.LockTime = p.TxVersion, p.TxLock
+		for k := 0; k < p.ExtraIn; k++ {
+			other := &bt.Input{PreviousTxOutIndex: uint32(k + 1), SequenceNumber: 0xfffffffe, UnlockingScript: bscript.NewFromBytes([]byte{0x51, byte(0x52 + k)})}
+			_ = other.PreviousTxIDAdd(bytes.Repeat([]byte{byte(k + 1)}, 32))
+			tx.Inputs = append(tx.Inputs, other)
+		}
 		in := &bt.Input{PreviousTxOutIndex: 0, SequenceNumber: p.InSeq}
 		_ = in.PreviousTxIDAdd(make([]byte, 32))
 		in.UnlockingScript = b.Unlock
 		tx.Inputs = append(tx.Inputs, in)
 		tx.Outputs = append(tx.Outputs, &bt.Output{Satoshis: 1, LockingScript: bscript.NewFromBytes([]byte{0x51})})
+		for k := 0; k < p.ExtraOut; k++ {
+			tx.Outputs = append(tx.Outputs, &bt.Output{Satoshis: uint64(1000 + k), LockingScript: bscript.NewFromBytes([]byte{0x76, 0xa9, byte(k)})})
+		}
 		b.Tx = tx
 		if p.HasPrev {
-			b.Opts = append(b.Opts, interpreter.WithTx(tx, 0, &bt.Output{Satoshis: 1000, LockingScript: b.Lock}))
+			b.Opts = append(b.Opts, interpreter.WithTx(tx, p.ExtraIn, &bt.Output{Satoshis: 1000, LockingScript: b.Lock}))
 		} else {
-			b.Opts = append(b.Opts, interpreter.WithTx(tx, 0, nil), interpreter.WithScripts(b.Lock, b.Unlock))
+			b.Opts = append(b.Opts, interpreter.WithTx(tx, p.ExtraIn, nil), interpreter.WithScripts(b.Lock, b.Unlock))
 		}
 	} else {
 		b.Opts = append(b.Opts, interpreter.WithScripts(b.Lock, b.Unlock))
